@@ -38,7 +38,9 @@ Base(k) ==
                              \*   index map is applied: 8 / 2 over I 9 / H 5 with H standing in for the first end point) |
                              \*   "taken" (busy only: within the parent on arrival, beyond it once the pending update is through)
    busy |-> FALSE,           \* the receiver's parent channel has an update pending (see above)
-   fa |-> "equal",           \* funding agreement: "equal" | "shifted" (same sum, other distribution)
+   fa |-> "equal",           \* funding agreement: "equal" | "shifted" (same sum, other distribution) | "small" (1 / 1: less than the
+                             \*   balances; a sub-channel is funded from its parent, the field has no function there and the
+                             \*   statement no clause about it - but it must not stand in for the balances in any check)
    parents |-> "ok",         \* virtual: "ok" | "none" | "one" | "three" | "unknown"
    imaps |-> "ok"]           \* virtual: "ok" | "one" | "three" | "entry2" | "long" | "dup0" / "dup1" (the receiver's map is not
                              \*   injective: both end points stand at index 0 / 1 of the parent - no assignment of the two end
@@ -83,18 +85,23 @@ Mutants(k) ==
              \cup { <<"busy", [b EXCEPT !.busy = TRUE]>> }                          \* control: still affordable afterwards
              \cup { <<"taken", [b EXCEPT !.busy = TRUE, !.funds = "taken"]>> } ELSE {})
   \cup (IF k = "virtual" THEN { <<"funds", [b EXCEPT !.funds = "exceedmapped"]>> } ELSE {})
+  \cup (IF k = "sub"
+        THEN { <<"fasmall", [b EXCEPT !.fa = "small"]>> }                             \* no clause: either outcome
+             \cup { <<"fundsfa", [b EXCEPT !.funds = "exceed", !.fa = "small"]>> }    \* more funds than the parent holds
+        ELSE {})
   \cup (IF k = "virtual"
         THEN { <<"parents", [b EXCEPT !.parents = x]>> : x \in {"none", "one", "three", "unknown"} }
              \cup { <<"imaps", [b EXCEPT !.imaps = x]>> : x \in {"one", "three", "entry2", "long", "dup0", "dup1"} } ELSE {})
 
-Verdict(m, hasParent) == IF WellFormed(m, hasParent) THEN "handler" ELSE "dropped"
+Verdict(m, hasParent) == IF ~WellFormed(m, hasParent) THEN "dropped"
+                         ELSE IF m.kind = "sub" /\ m.fa # "equal" THEN "either" ELSE "handler"
 (* a ledger proposal may carry a funding agreement that differs from the initial balances (same sums) *)
 ASSUME WellFormed([Base("ledger") EXCEPT !.fa = "shifted"], FALSE)
 ASSUME \A k \in Kinds : WellFormed(Base(k), TRUE)
 ASSUME ~WellFormed(Base("sub"), FALSE) /\ ~WellFormed(Base("virtual"), FALSE)
 (* every mutant except the ledger funding agreement breaks well-formedness *)
 ASSUME \A k \in Kinds : \A x \in Mutants(k) :
-          (x[1] \notin {"none", "busy"} /\ ~(k = "ledger" /\ x[1] = "fa")) => ~WellFormed(x[2], TRUE)
+          (x[1] \notin {"none", "busy", "fasmall"} /\ ~(k = "ledger" /\ x[1] = "fa")) => ~WellFormed(x[2], TRUE)
 ASSUME \A k \in {"sub", "virtual"} : WellFormed([Base(k) EXCEPT !.busy = TRUE], TRUE)
 
 Export ==
